@@ -199,7 +199,9 @@ def correspondence(R, pid, cases, results, tier):
         w = worst.setdefault(c["fn"], 0.0)
         if df <= CORR_TOL:
             worst[c["fn"]] = max(w, df)
+            r["_model_agrees"] = True        # the binary64 model reproduces d and every returned point on this input
         else:
+            r["_model_agrees"] = False
             mism.append((i, mv, arm, df))
     # (a) non-unique minimiser: d agrees but the points differ, and the MODEL's points are themselves a valid answer
     #     (on their primitives, |p1-p2| = d, judged by the same exact oracle as the implementation's result): when a
@@ -218,6 +220,7 @@ def correspondence(R, pid, cases, results, tier):
             fails, _ = _c10.judge_py(c, fake)
             if not fails:
                 nonunique += 1
+                r["_model_agrees"] = True    # same d, another valid closest pair
                 continue
         keep.append((i, mv, arm, df))
     mism = keep
